@@ -687,9 +687,9 @@ func runHandlerSeq(n0 int, steps []c05step) (res c05bResult) {
 	q.Start()
 	select {
 	case <-done:
-	case <-time.After(20 * time.Second):
+	case <-time.After(120 * time.Second):
 		// liveness guard only; never an oracle on a healthy tree
-		return c05bResult{sig: "C05b stuck", what: fmt.Sprintf("worker made no progress for 20s at step %d; trace %v", stepIdx, res.trace), trace: res.trace}
+		return c05bResult{sig: "C05b stuck", what: fmt.Sprintf("worker made no progress for 120s at step %d; trace %v", stepIdx, res.trace), trace: res.trace}
 	}
 	return res
 }
